@@ -13,11 +13,26 @@ def main():
     if not os.path.exists(vlib.TLA_CP.split(':')[0]):
         print('missing tla2tools.jar'); return 3
     cfgs, akinds, _ = vlib.load_configs()
-    units = sorted({(scen, c, ak) for p in props.PROPS.values() for (scen, c, ak, b) in p['units']['quick']})
     pool = ThreadPoolExecutor(vlib.NCPU)
-    futs = [pool.submit(vlib.gen_plan, cfgs[c], scen, 'quick', akinds[ak], ()) for scen, c, ak in units]
-    for f in futs:
+    # layout universes (TLC enumerates the lists and checks the layout oracle on each)
+    for f in [pool.submit(vlib.gen_universe, n) for n in vlib.UNIVERSE]:
         f.result()
-    print('setup: %d quick plans ready' % len(futs))
+    seen = set()
+    jobs = []
+    for p in props.PROPS.values():
+        us = p['units']['quick']
+        us = us.all() if isinstance(us, props.Units) else us
+        for scen, c, ak, b in us:
+            cfg = cfgs[c] if isinstance(c, str) else c
+            key = (scen, cfg['id'], ak)
+            if key in seen:
+                continue
+            seen.add(key)
+            jobs.append(pool.submit(vlib.gen_plan, cfg, scen, 'quick', akinds[ak], (), 1))
+    for f in jobs:
+        f.result()
+    props.src_cases()
+    props.reader_schedules(2, 2)
+    print('setup: %d quick plans ready (spec-only work: generator models, layout universes, C15 cases, C19 schedules)' % len(jobs))
     return 0
 sys.exit(main())
